@@ -34,7 +34,7 @@ EXPECTED_PROBES = ["returned", "empty_input_partition", "more_partitions_than_ro
                    "packed_after_cached_bounds_and_mask",
                    "input_range_partitioned_along_curve_unsorted_inside",
                    "polygon_ring_outside_first_ring",
-                   "packed_again_after_in_place_column_assignment"]
+                   "packed_again_after_in_place_column_assignment", "packed_after_build_sindex"]
 
 
 def cases(tier, base_seed):
@@ -62,7 +62,8 @@ def cases(tier, base_seed):
             gen.shift_spec(frame, rng.choice((-8.0, -20.0, 500000.0)))
         pre = None
         if rng.random() < 0.3:
-            pre = {"warm": rng.random() < 0.7, "mod": rng.choice((2, 3, 4)), "rem": rng.randint(0, 1)}
+            pre = {"warm": rng.random() < 0.7, "mod": rng.choice((2, 3, 4)), "rem": rng.randint(0, 1),
+                   "build": rng.random() < 0.4}
         case = {"seed": seed, "frame": frame, "parts": parts(), "parts2": parts(), "pre": pre,
                 "npartitions": rng.choice((1, 2, 3, 4, 5, 8, 11, 16)),
                 "p": rng.choice((1, 2, 3, 5, 8, 10, 15, 20)),
@@ -114,6 +115,8 @@ def _pack(spec, parts, npartitions, p, tag, pre=None):
         if pre.get("warm"):
             ddf.partition_sindex          # fills the parent's partition-bounds cache
         ddf = ddf[ddf["v"] % pre["mod"] != pre["rem"]]
+        if pre.get("build"):
+            ddf = ddf.build_sindex()      # every partition carries a built spatial index
     active = ddf.geometry.name      # "the active geometry" = what the input frame reports
     packed = ddf.pack_partitions(npartitions=npartitions, p=p)
     whole = packed.compute()
@@ -168,6 +171,8 @@ def run_case(case):
                 if pre:
                     probes["packed_after_cached_bounds_and_mask" if pre.get("warm")
                            else "packed_after_mask"] = 1
+                    if pre.get("build"):
+                        probes["packed_after_build_sindex"] = 1
             except HarnessError:
                 raise
             except Exception as e:  # noqa: BLE001 - the property claims nothing when it raises
